@@ -21,6 +21,7 @@ EXPLANATION = (
     "filters; no float is created by the library on these paths. Does NOT decide per-ranking weight "
     "totals on all inputs."
 )
+EXPLANATION += " Also decided (prerequisites and later clauses): Ballot's weight validator leaves an exact Fraction as it is (C11.R2)."
 ASSUMPTIONS = ["itertools.permutations yields every arrangement exactly once (trusted primitive)",
                "Ballot.weight is a Fraction (field type + validator, checked in C11.R2)"]
 TRUSTED = ["itertools.permutations", "fractions.Fraction"]
